@@ -2908,7 +2908,13 @@ primary_expression
         {
           if ($3.value.integer != 0)
           {
-            $$.value.integer = OPERATION(/, $1.value.integer, $3.value.integer);
+            // INT64_MIN \ -1 overflows (SIGFPE on x86). At run time the result
+            // is undefined (see OP_INT_DIV in exec.c), so it is here too.
+            if ($1.value.integer == INT64_MIN && $3.value.integer == -1)
+              $$.value.integer = YR_UNDEFINED;
+            else
+              $$.value.integer = OPERATION(/, $1.value.integer, $3.value.integer);
+
             $$.type = EXPRESSION_TYPE_INTEGER;
           }
           else
@@ -2932,7 +2938,13 @@ primary_expression
 
         if ($3.value.integer != 0)
         {
-          $$.value.integer = OPERATION(%, $1.value.integer, $3.value.integer);
+          // INT64_MIN % -1 overflows (SIGFPE on x86). At run time the result
+          // is undefined (see OP_MOD in exec.c), so it is here too.
+          if ($1.value.integer == INT64_MIN && $3.value.integer == -1)
+            $$.value.integer = YR_UNDEFINED;
+          else
+            $$.value.integer = OPERATION(%, $1.value.integer, $3.value.integer);
+
           $$.type = EXPRESSION_TYPE_INTEGER;
         }
         else
